@@ -158,14 +158,11 @@ def run_family(pid, family, rule, negatives, nrandom=(400, 4000), nontrivial=lam
             c.count_nontrivial(json.dumps(case_of_event(e), sort_keys=True))
     if not c.replay_path:
         for fn, key, prefix in negatives:
-            src = next((e for e in evs if e["fn"] == fn and e.get(key) and e.get("outcome", "ok") == "ok"
-                        and e.get("w_outcome", "ok") == "ok"), None)
-            if src is None:
-                raise RuntimeError("no event for negative control %s" % fn)
-            e = copy.deepcopy(src)
-            v = e[key][-1]
-            e[key][-1] = [v[0] if v[0] in (-1, 1) else 1, v[1] + 13, v[2]]
-            c.add_negative(e, prefix)
+            def mut(e, key=key):
+                v = e[key][-1]
+                e[key][-1] = [v[0] if v[0] in (-1, 1) else 1, v[1] + 13, v[2]]
+            c.negative_from(evs, lambda e, fn=fn, key=key: e["fn"] == fn and e.get(key) and e.get("outcome", "ok") == "ok"
+                            and e.get("w_outcome", "ok") == "ok", mut, prefix)
     c.rule = rule
     c.coverage_extra = {"lattice_cases_from_tlc": lattice, "random_cases": len(cases) - lattice}
     c.assumptions = ["TLC 1.8, CommunityModules Json/IOUtils",
